@@ -474,6 +474,42 @@ def havoc_mutable(ex, st, v, written, depth=0, seen=None):
     return v
 
 
+def normalise_windows(ex, st, v, depth=0, seen=None):
+    """Re-impose the representation invariant of Window (proved inductive by rule A04) on every window inside an instance whose
+    mutable fields were forgotten: buf.len == size, s_1 == size.saturating_sub(1), index <= s_1."""
+    if seen is None:
+        seen = set()
+    if depth > 8 or v[0] not in ('adt', 'tuple'):
+        return
+    if v[0] == 'tuple':
+        for c in v[1]:
+            if c not in seen:
+                seen.add(c)
+                normalise_windows(ex, st, st.cells[c], depth + 1, seen)
+        return
+    if v[1] == 'core::window::Window' and 'Window' in v[3]:
+        fl = v[3]['Window']
+        size = st.cells[fl['size']]
+        if size[0] == 'int':
+            lo, hi = ex.rng(st, size[2])
+            one = ex.mk_const_int(st, size[1], 1)
+            s1 = ex.mk_int(st, size[1], max(lo - 1, 0), max(hi - 1, 0))
+            ex.idef[s1[2]] = ('sat_sub', size[2], one[2])
+            ex.dec_of.setdefault(size[2], []).append(s1[2])
+            st.rel.add(('le', s1[2], size[2]))
+            idx = ex.mk_int(st, size[1], 0, max(hi - 1, 0))
+            st.rel.add(('le', idx[2], s1[2]))
+            st.cells[fl['s_1']] = s1
+            st.cells[fl['index']] = idx
+            st.cells[fl['buf']] = ('buf', size[2])
+        return
+    for vn, fs in v[3].items():
+        for fn, c in fs.items():
+            if c not in seen:
+                seen.add(c)
+                normalise_windows(ex, st, st.cells[c], depth + 1, seen)
+
+
 def a02_next_with_facts(ctx, only=None, strict_module=None, rule_id='A02'):
     """strict_module: obligations located in functions of that module are violations whatever their kind (except
     assertions on the validity of inputs)."""
@@ -521,9 +557,11 @@ def a02_next_with_facts(ctx, only=None, strict_module=None, rule_id='A02'):
         s0, inst = ex.join_outcomes(oks) if len(oks) > 1 else oks[0]
         s0 = s0.copy()
         inst = havoc_mutable(ex, s0, inst, written)
+        normalise_windows(ex, s0, inst)
         nb = ex.body(next_id)
         ex.obligations = []
         ex.discharged = 0
+        ex.split_bool_casts = ('core::window::',)      # the branchless cursor arithmetic of the ring buffer is evaluated per truth value
         args = [('ref', ex.alloc(s0, inst))]
         for k in range(2, nb.arg_count + 1):
             args.append(ex.top_of(s0, nb.locals[k]['tyj']))
@@ -544,6 +582,8 @@ def a02_next_with_facts(ctx, only=None, strict_module=None, rule_id='A02'):
             decided_kind = False
             if ob.kind == 'debug_assert' and 'empty window' in ob.detail:
                 decided_kind = True
+            elif ob.kind in ('boundscheck', 'overflow') and 'core::window::' in ob.fn:
+                decided_kind = True     # ring-buffer accesses: decided with the representation invariant of A04
             elif ob.kind == 'panic' and 'Window' in ob.fn and ('index' in ob.fn or 'Index' in ob.fn):
                 decided_kind = True
             elif ob.kind in ('unwrap', 'expect') and 'window' in ob.fn.lower():
